@@ -38,7 +38,7 @@ class BuildSolution(Contract):
 
     def cases(self, tier):
         out = []
-        reqs = ("none", "static", "delayed", "dynamic", "select", "cumulative")
+        reqs = ("none", "static", "delayed", "dynamic", "select", "cumulative", "cumulative+worker")
         for ts in (("Fm",), ("Fo",), ("Vo",), ("Zo",), ("Zm",), ("Fm", "Vo")):
             for req in reqs:
                 for cal in ("none", "delta", "delta+start"):
@@ -68,6 +68,8 @@ class BuildSolution(Contract):
             res = [ps.Worker(name="w"), ps.Worker(name="w2")]
         elif case["req"] == "cumulative":
             res = ps.CumulativeWorker(name="cw", size=2)
+        elif case["req"] == "cumulative+worker":
+            res = (ps.CumulativeWorker(name="cw", size=2), ps.Worker(name="w"))
         tasks = []
         for i, code in enumerate(case["ts"]):
             cls, opt = decode(code)
@@ -91,6 +93,10 @@ class BuildSolution(Contract):
                 t.add_required_resource(ps.SelectWorkers(list_of_workers=res, nb_workers_to_select=1, kind="min"))
             elif case["req"] == "cumulative":
                 t.add_required_resource(res)
+            elif case["req"] == "cumulative+worker":
+                # the cumulative worker first, a plain worker after it
+                t.add_required_resource(res[0])
+                t.add_required_resource(res[1])
             tasks.append(t)
         P.apply_pins(ps)
         solver = ps.SchedulingSolver(problem=pb)
@@ -146,7 +152,7 @@ class BuildSolution(Contract):
                     if a[0] != t.name:
                         continue
                     bs, be = T(a[1]), T(a[2])
-                    if case["req"] in ("static", "select", "cumulative"):
+                    if case["req"] in ("static", "select", "cumulative", "cumulative+worker"):
                         C02.append(Implies(sch, And(bs == s, be == e)))
                     elif case["req"] == "delayed":
                         C02.append(Implies(sch, And(bs == s + T(P.int("delay_in")), be == e - T(P.int("early_out")))))
@@ -159,9 +165,13 @@ class BuildSolution(Contract):
                 C02.append(Implies(sch, z3.BoolVal(len(names) >= 1 and set(names) <= {"w", "w2"})))
             elif case["req"] == "cumulative":
                 C02.append(Implies(sch, z3.BoolVal(names == ["cw"])))
+            elif case["req"] == "cumulative+worker":
+                C02.append(Implies(sch, z3.BoolVal(sorted(names) == ["cw", "w"])))
         # cumulative workers are reported under their own name only
         if case["req"] == "cumulative":
             C11.append(z3.BoolVal(set(sol.resources.keys()) == {"cw"}))
+        elif case["req"] == "cumulative+worker":
+            C11.append(z3.BoolVal(set(sol.resources.keys()) == {"cw", "w"}))
         elif case["req"] == "select":
             C11.append(z3.BoolVal(set(sol.resources.keys()) == {"w", "w2"}))
         out.append(Clause("report[self-consistent]", And(*C11), props=("C11",), kind="equals", bounded=self.bounded))
